@@ -57,6 +57,7 @@ draw_prim! {
     minicbor::bytes::ByteVec => |g| minicbor::bytes::ByteVec::from(g.bytes(40));
     NilU32 => |g| NilU32(if g.chance(100) { None } else { Some(g.u32().min(u32::MAX - 1)) });
     OwnNil => |g| OwnNil(if g.chance(100) { None } else { Some(g.u32()) });
+    WideNil => |g| WideNil(if g.chance(100) { 0 } else { g.u32() });
     NilStr => |g| NilStr(if g.chance(100) { String::new() } else { let s = g.string(12); if s.is_empty() { "x".into() } else { s } });
 }
 impl<'a> Draw<'a> for &'a str { fn draw(g: &mut Gen, ar: &'a Arena, _: &mut Presence) -> Self { ar.str(g.string(30)) } }
@@ -280,6 +281,21 @@ impl<'b, C> minicbor::Decode<'b, C> for OwnNil {
     fn nil() -> Option<Self> { Some(OwnNil(None)) }
 }
 impl<C> minicbor::CborLen<C> for OwnNil { fn cbor_len(&self, ctx: &mut C) -> usize { match self.0 { None => 1, Some(n) => minicbor::CborLen::cbor_len(&n, ctx) } } }
+
+/// A user type with a nil value of its own that is an ordinary value on the wire (`0`, written as the integer 0, never as null).
+/// As a mandatory field it is nil-capable through the trait methods; wrapped in `Option` it is an optional field whose
+/// `Some(nil)` is a *present* value: only `None` is absent.
+#[derive(Debug, Clone, Copy, PartialEq, Default)]
+pub struct WideNil(pub u32);
+impl<C> minicbor::Encode<C> for WideNil {
+    fn encode<W: minicbor::encode::Write>(&self, e: &mut minicbor::Encoder<W>, _: &mut C) -> Result<(), minicbor::encode::Error<W::Error>> { e.u32(self.0)?.ok() }
+    fn is_nil(&self) -> bool { self.0 == 0 }
+}
+impl<'b, C> minicbor::Decode<'b, C> for WideNil {
+    fn decode(d: &mut minicbor::Decoder<'b>, _: &mut C) -> Result<Self, minicbor::decode::Error> { if d.datatype()? == minicbor::data::Type::Null { d.null()?; Ok(WideNil(0)) } else { Ok(WideNil(d.u32()?)) } }
+    fn nil() -> Option<Self> { Some(WideNil(0)) }
+}
+impl<C> minicbor::CborLen<C> for WideNil { fn cbor_len(&self, ctx: &mut C) -> usize { minicbor::CborLen::cbor_len(&self.0, ctx) } }
 
 /// A type alias hides the `Option` from the derive macros: nil handling has to come from the trait methods.
 pub type OptU8 = Option<u8>;
